@@ -48,6 +48,19 @@ Record cframe := { c_video : bool; c_dts : Z; c_pts : Z; c_pay : bytes }.
 Definition to_90k (ns : Z) : Z := Z.quot (ns * 90000) 1000000000.
 Definition ns_ok (ns : Z) : bool := (0 <=? ns) && (ns * 90000 <? 2 ^ 63).
 
+(* The video meta (a pointer to codec.VideoMeta) is shared state: the RTP depacketizer stores parameter
+   sets it learns in-band into it while the muxer is already running.  An event either
+   changes the meta's Sps/Pps or pushes a source frame; [annotate] pairs every frame with
+   the parameter sets that are CURRENT when it is packetized. *)
+Inductive mevent := EvSet (sps pps : bytes) | EvFrame (c : cframe).
+Record aframe := { a_sps : bytes; a_pps : bytes; a_c : cframe }.
+Fixpoint annotate (sps pps : bytes) (evs : list mevent) : list aframe :=
+  match evs with
+  | [] => []
+  | EvSet s p :: r => annotate s p r
+  | EvFrame c :: r => {| a_sps := sps; a_pps := pps; a_c := c |} :: annotate sps pps r
+  end.
+
 Inductive pk_outcome :=
 | PkFrame (f : tsframe)     (* WriteMpegtsFrame is called with f *)
 | PkSkip                    (* nothing is handed to the writer *)
